@@ -123,6 +123,16 @@ def check(pid, tier, replay=None):
         missing = [c for c in (m.get("required_classes") or []) if m["event_classes_seen"].get(c, 0) == 0]
         if missing:
             v.note_inconclusive(f"[{fl}] required event classes never observed: {missing}")
+    miri_info = None
+    if tier == "thorough" and pid in ("C02", "C08", "C13"):
+        # a handful of simulated transfers (threads, channel-free socket, file I/O, virtual clock hook) under Miri:
+        # undefined behaviour, data races and leaks in what the workload reaches
+        from . import purecheck
+        miri_info = purecheck.miri_slice(pid, wd)
+        if miri_info.get("status") == "ub-or-failure":
+            v.violation(f"{pid}/miri", "Miri reported undefined behaviour / a data race / a failing monitor: " + miri_info.get("tail", "")[-600:], {"engine": "miri", "log": miri_info.get("log")})
+        elif miri_info.get("status") != "clean":
+            v.note_inconclusive("Miri slice did not run to completion: " + str(miri_info.get("status")))
     net_info = {}
     from . import net_ext
     if pid in net_ext.EXT:
@@ -150,6 +160,7 @@ def check(pid, tier, replay=None):
         "builds": per_flavor,
         "cases_generated_per_build": info.get("cases_generated"),
         "loopback_complement": net_info,
+        "miri_slice": miri_info,
     }
     assumptions = [
         "the simulated socket + network model + reference peers (harness/src/sim.rs, peers.rs) are the trusted base; peers are written from RFC 1350/2347/7440",
